@@ -151,8 +151,7 @@ Eff(o, fs, cr, D) ==
         ELSE IF ~Exists(fs, p) THEN Fail("FileNotFoundError")
         ELSE IF ReachErr(fs, q) # "ok" THEN Fail(ReachErr(fs, q))
         ELSE IF Par[q] = p THEN Fail("OSError")                         \* EINVAL
-        ELSE IF Par[p] = q
-          THEN Fail(IF Kind(fs, p) = "file" THEN "IsADirectoryError" ELSE "OSError")
+        ELSE IF Par[p] = q THEN Fail("OSError")                         \* ENOTEMPTY
         ELSE IF Kind(fs, p) = "file" /\ Kind(fs, q) = "dir" THEN Fail("IsADirectoryError")
         ELSE IF Kind(fs, p) = "dir" /\ Kind(fs, q) = "file" THEN Fail("NotADirectoryError")
         ELSE IF Kind(fs, p) = "dir" /\ PresentKids(fs, q) # {} THEN Fail("OSError")  \* ENOTEMPTY
